@@ -544,14 +544,30 @@ def expected_winner(scn):
                 return 'c2'
             if s[0] == 'abortC':
                 return 'c1'
-        deferred = [s for s in inst if s[0] in ('armCalc', 'armCalcHandler', 'rawCancel', 'monTrigger',
-                                                'shutdownTask', 'sigterm')]
-        if deferred:
-            s = deferred[0]
-            if s[0] in ('armCalc', 'armCalcHandler') and any(x[0] == 'rawCancel' for x in inst):
-                return 'c0'
-            return {'armCalc': lambda: f'x{s[1]}', 'armCalcHandler': lambda: f'w{s[1]}', 'rawCancel': lambda: 'c0',
-                    'monTrigger': lambda: f'x{s[1]}', 'shutdownTask': lambda: 'c1', 'sigterm': lambda: 'c4'}[s[0]]()
+        # deferred sources act in the next loop iteration, in the order in which their tasks were woken; the
+        # simulation task is woken by the first output change of an SBlock (nestedUnknown changes an Input) or
+        # cancel(); when it runs, a requested cancellation beats the evaluation it was woken for
+        order, sim_seen = [], False
+        for s in inst:
+            if s[0] in ('nestedUnknown', 'armCalc', 'armCalcHandler', 'rawCancel'):
+                if not sim_seen:
+                    sim_seen = True
+                    order.append('sim')
+            elif s[0] in ('monTrigger', 'shutdownTask', 'sigterm'):
+                order.append(s)
+        for item in order:
+            if item == 'sim':
+                if any(x[0] == 'rawCancel' for x in inst):
+                    return 'c0'
+                calc = [x for x in inst if x[0] in ('armCalc', 'armCalcHandler')]
+                if calc:
+                    return ('x' if calc[0][0] == 'armCalc' else 'w') + str(calc[0][1])
+            elif item[0] == 'monTrigger':
+                return f'x{item[1]}'
+            elif item[0] == 'shutdownTask':
+                return 'c1'
+            elif item[0] == 'sigterm':
+                return 'c4'
         if any(s[0] == 'supFail' for s in inst):
             return 'c1'         # run() stops the simulation with a cancellation
     return 'c1'                 # nothing fatal: the final shutdown() / end of the driver
